@@ -122,6 +122,10 @@ type Result struct {
 	SimNanos   int64
 	Counters   map[string]int64
 	Known      map[string]int64 // open known findings met (and tolerated) during the run
+	// PlanOverride, when set together with Viol, is the plan that reproduces
+	// the violation (a world that enumerates faults internally reports the
+	// single-fault plan that failed).
+	PlanOverride *Plan
 	Trace      []string // tail of the event log (only kept when tracing)
 }
 
